@@ -20,11 +20,14 @@ import (
 	"go/token"
 	"go/types"
 	"os"
+	"regexp"
 	"sort"
 	"strings"
 )
 
 type unsupported struct{ msg string }
+
+var zeroTypeName = regexp.MustCompile(`(^|[^.\w])go_`)
 
 func fail(format string, a ...interface{}) { panic(unsupported{fmt.Sprintf(format, a...)}) }
 
@@ -2558,6 +2561,8 @@ func main() {
 		}()
 		if *module != "" {
 			zero = strings.ReplaceAll(zero, "mk_go_", *module+".mk_go_")
+			// type names inside the zero value ("([] : list (go_X))") are this module's too
+			zero = zeroTypeName.ReplaceAllString(zero, "${1}"+*module+".go_")
 		}
 		side.Structs[n] = extStruct{Zero: zero, Fields: names}
 	}
